@@ -100,7 +100,10 @@ def slotted(  # noqa: C901
 
         cls_dict = {**cls.__dict__}
         # Create only missing slots
-        inherited_slots = set().union(*(getattr(c, "__slots__", ()) for c in cls.mro()))
+        #   (the class itself is replaced: slots of its own are declared again).
+        inherited_slots = set().union(
+            *(getattr(c, "__slots__", ()) for c in cls.__mro__[1:])
+        )
         # A base class without `__slots__` already provides `__dict__` and `__weakref__`.
         if any("__slots__" not in vars(c) for c in cls.__mro__[1:-1]):
             inherited_slots.update(("__dict__", "__weakref__"))
